@@ -48,6 +48,20 @@ func checkC05(c *Ctx) {
 	c.NotDec = append(c.NotDec, "byte-exact signature and public-key outputs", "scalar reduction carries and scalar multiplication (C12/C13)", "the exact acceptance set with respect to the cofactored/cofactorless equation")
 
 	ed, e4 := "sign/ed25519", "sign/ed448"
+	// RFC 8032 5.1.7 / 5.2.7: the only reasons to refuse are the lengths, S >= L, a key that does not decode
+	// and the group equation; the variant flag selects the hashing. A further test (the key is the neutral
+	// element, the point has small order, ...) refuses signatures the RFC accepts.
+	c.Clauses = append(c.Clauses, "C05.reasons: Ed25519 / Ed448 verification refuses only for the reasons RFC 8032 lists (every rejecting branch is a length comparison or decided by the key decoder, the range test of S or the final comparison)")
+	c.rejectReasonsRule(p, "C05.reasons", reasonSpec{pkg: ed, name: "verify", why: "RFC 8032 5.1.7",
+		callees: []string{ed + ".isLessThanOrder", "(*" + ed + ".pointR1).FromBytes", "bytes.Equal"}})
+	// point decoding (5.1.3 / 5.2.3): y < p, the square root exists, x = 0 with the sign bit set, (Ed448) the
+	// low seven bits of the last octet are zero
+	c.rejectReasonsRule(p, "C05.reasons", reasonSpec{pkg: ed, typ: "pointR1", name: "FromBytes", why: "RFC 8032 5.1.3",
+		callees: []string{ed + ".isLessThan", "math/fp25519.InvSqrt"}, conds: []string{`\(param#1\[31\]>>7\) == 1`}})
+	c.rejectReasonsRule(p, "C05.reasons", reasonSpec{pkg: "ecc/goldilocks", name: "FromBytes", why: "RFC 8032 5.2.3",
+		callees: []string{"ecc/goldilocks.isLessThan", "math/fp448.InvSqrt"}, conds: []string{`\(param#0\[56\]>>7\) == 1`, `\(param#0\[56\]&127\) != 0`}})
+	c.rejectReasonsRule(p, "C05.reasons", reasonSpec{pkg: e4, name: "verify", why: "RFC 8032 5.2.7",
+		callees: []string{e4 + ".isLessThanOrder", "ecc/goldilocks.FromBytes", "bytes.Equal"}})
 	// --- reject rules on verify ---
 	for _, pk := range []string{ed, e4} {
 		f := p.Func(pk, "", "verify")
